@@ -60,6 +60,6 @@ for _seed in (1, 8, 5):
 # the whole real restrict on seed S2 followed by the independent C01 checker is shared with C08 (same source, same queries)
 _s8 = _iu.spec_from_file_location("spec_C08", os.path.join(os.path.dirname(__file__), "C08.py")); _m8 = _iu.module_from_spec(_s8); _s8.loader.exec_module(_m8)
 for _h in _m8.HARNESSES:
-    if _h["name"].startswith("restrict_enum_s2_"): _h2 = dict(_h); _h2["name"] = "C08_" + _h["name"]; HARNESSES.append(_h2)
+    if _h["name"].startswith("restrict_enum_s2_") or _h["name"].startswith("restrict_enum_s13_"): _h2 = dict(_h); _h2["name"] = "C08_" + _h["name"]; HARNESSES.append(_h2)
 OUTSIDE = ["distance-based grouping; Group insertion and restrict on whole trees only for the enumerated sets, flags and seeds", "arbitrary-length call histories except through the one-step argument on the asserted invariants",
            "cpukinds (C15), distances (C13), memattrs (C14) steps are decided by their own properties"]
